@@ -122,6 +122,7 @@ Fixpoint tree_eqb (a b : tree) : bool :=
   match a, b with
   | Leaf p o, Leaf p' o' => list_eqb p p' && list_eqb o o'
   | Br c t f, Br c' t' f' => expr_eqb c c' && tree_eqb t t' && tree_eqb f f'
+  | Abort w, Abort w' => String.eqb w w' && String.prefix "large:" w   (* entries summarised by a structural hash *)
   | _, _ => false
   end.
 Lemma tree_eqb_eq : forall a b, tree_eqb a b = true -> a = b.
@@ -129,6 +130,7 @@ Proof.
   induction a; destruct b; simpl; intros H; try discriminate; split_andb.
   - apply list_eqb_eq in H. apply list_eqb_eq in H0. subst; reflexivity.
   - apply expr_eqb_eq in H. apply IHa1 in H1. apply IHa2 in H0. subst; reflexivity.
+  - apply String.eqb_eq in H. subst; reflexivity.
 Qed.
 
 (* substitution of inputs *)
@@ -169,8 +171,9 @@ Fixpoint leaves (t : tree) : list (list expr * list expr) :=
   | Br _ t f => leaves t ++ leaves f
   | Abort _ => []
   end.
+(* an Abort that is not a "large:<hash>" summary: the entry could not be traced *)
 Fixpoint has_abort (t : tree) : bool :=
-  match t with Leaf _ _ => false | Br _ t f => has_abort t || has_abort f | Abort _ => true end.
+  match t with Leaf _ _ => false | Br _ t f => has_abort t || has_abort f | Abort w => negb (String.prefix "large:" w) end.
 
 Definition single_leaf (t : tree) : option (list expr) :=
   match t with Leaf _ o => Some o | _ => None end.
